@@ -106,6 +106,8 @@ def run(ctx):
     r10_orderable_arguments(ctx, cmpf)
     r11_view_composition(ctx)
     r12_missing_hash(ctx)
+    index_then_insert(ctx, "C17.R13")
+    r14_declared_index_order(ctx)
 
 
 def _arms(fn):
@@ -267,6 +269,58 @@ def r4_index_invariant(ctx):
     ctx.ob("C17.R4", RES, "Table.index", idx, "every column (index and non-index) is permuted by the same row permutation", ok and len(rest) == 1, stmt="one permutation for all columns")
 
 
+def r14_declared_index_order(ctx, rule="C17.R14"):
+    """where() and copy() build their result through Table(<view>, columns, self._indexes): the constructor must record the index columns in the order given, because
+    that order IS the sort order of the rows (index('b','a') on columns a,b,c sorts by b first)."""
+    ctx.rule(rule, "Table.__init__ records the declared index columns in the given order: self._indexes is tuple(<indexes>) or a comprehension that iterates the `indexes` "
+                   "parameter (filtering is fine, re-ordering by another sequence is not)")
+    init = ctx.fn(RES, "Table.__init__")
+    P = [a.arg for a in init.args.args]
+    IDX = P[3] if len(P) > 3 else "indexes"
+    st = [x for x in ast.walk(init) if isinstance(x, ast.Assign) and any(is_self_attr(t, "_indexes") for t in x.targets)]
+    ctx.floor(rule, "assignments of self._indexes in Table.__init__", len(st), 1)
+    for x in st:
+        v = x.value
+        inner = v.args[0] if isinstance(v, ast.Call) and call_name(v) in ("tuple", "list") and len(v.args) == 1 else v
+        ok = (isinstance(inner, ast.Name) and inner.id == IDX) or \
+             (isinstance(inner, (ast.GeneratorExp, ast.ListComp)) and len(inner.generators) == 1 and unparse(inner.generators[0].iter) == IDX and unparse(inner.elt) == unparse(inner.generators[0].target))
+        ctx.ob(rule, RES, "Table.__init__", x, "the index columns are kept in the order they were declared in", ok, detail={"stored": unparse(v)})
+
+
+def sub_lohis_runs(ctx, rule):
+    """the run splitter behind index(), groupby and every indexed where: each yielded range ends at the bisect-right of its first value"""
+    sub = ctx.fn(RES, "Table._sub_lohis")
+    from ..util import bound_names
+    sub = rename_copy(sub, {n: "new_hi" for n in bound_names(sub, lambda v: isinstance(v, ast.Call) and call_name(v) == "my_bisect_right")})
+    src = unparse(sub)
+    ok = "new_hi = my_bisect_right(col, col[lo], lo, hi)" in src and "yield (lo, new_hi)" in src and "lo = new_hi" in src
+    # the end of a run has exactly one definition
+    defs = [x for x in ast.walk(sub) if isinstance(x, (ast.Assign, ast.AugAssign)) and any(isinstance(n_, ast.Name) and n_.id == "new_hi" and isinstance(n_.ctx, ast.Store)
+                                                                                             for t in (x.targets if isinstance(x, ast.Assign) else [x.target]) for n_ in ast.walk(t))]
+    ctx.ob(rule, RES, "Table._sub_lohis", sub, "sub-ranges partition [lo,hi) into maximal runs of equal values, ascending (every run ends at the bisect-right of its first value)", ok and len(defs) == 1, stmt="_sub_lohis")
+
+
+def index_then_insert(ctx, rule):
+    """Table.insert appends without re-sorting and Table.index returns early for the columns a table is already indexed by: rows inserted into an indexed table must
+    arrive in index order, otherwise the table claims an order it does not have (bisect look-ups, groupby and where_fin then read wrong ranges)."""
+    ctx.rule(rule, "index-then-insert discipline in coba/results/core.py: wherever a function calls <table>.index(..) and afterwards <table>.insert(data) on the same local table, "
+                   "the inserted rows are produced in sorted order -- the data expression iterates sorted(..), or the insert sits in a loop over sorted(..)")
+    n = 0
+    for (rel, qual), fn in sorted(ctx.model.functions.items()):
+        if rel != RES:
+            continue
+        idx = {}
+        for c in [c for c in ast.walk(fn) if isinstance(c, ast.Call) and isinstance(c.func, ast.Attribute) and c.func.attr == "index" and isinstance(c.func.value, ast.Name) and c.args]:
+            idx.setdefault(c.func.value.id, c.lineno)
+        for c in [c for c in ast.walk(fn) if isinstance(c, ast.Call) and isinstance(c.func, ast.Attribute) and c.func.attr == "insert" and isinstance(c.func.value, ast.Name)
+                  and c.func.value.id in idx and c.lineno > idx[c.func.value.id]]:
+            n += 1
+            data_sorted = any(isinstance(g, ast.comprehension) and isinstance(g.iter, ast.Call) and call_name(g.iter) == "sorted" for a_ in c.args for g in ast.walk(a_))
+            loop_sorted = any(isinstance(l_, ast.For) and isinstance(l_.iter, ast.Call) and call_name(l_.iter) == "sorted" for l_ in ancestors(c))
+            ctx.ob(rule, RES, qual, c, "rows inserted into an already indexed table arrive in sorted order", data_sorted or loop_sorted, detail={"table": c.func.value.id})
+    ctx.floor(rule, "inserts into already indexed local tables", n, 4)
+
+
 def r5_order(ctx, where, arms):
     ctx.rule("C17.R5", "a single-keyword selection is in table order: ranges are visited in ascending (lo,hi) order and each arm returns ascending ranges")
     loops = [x for x in walk_shallow(where) if isinstance(x, ast.For) and unparse(x.iter) == "self._lohis[kw]"]
@@ -278,12 +332,7 @@ def r5_order(ctx, where, arms):
     b, _, _ = _bisect_scan(arm) if arm is not None else (None, None, [])
     it = unparse(b.generators[0].iter) if isinstance(b, ast.ListComp) else ""
     ctx.ob("C17.R5", RES, "Table._compare", b if b is not None else where, "'in' visits its values in ascending order", it.startswith("sorted("), stmt="in: ascending values")
-    sub = ctx.fn(RES, "Table._sub_lohis")
-    from ..util import bound_names
-    sub = rename_copy(sub, {n: "new_hi" for n in bound_names(sub, lambda v: isinstance(v, ast.Call) and call_name(v) == "my_bisect_right")})
-    src = unparse(sub)
-    ok = "new_hi = my_bisect_right(col, col[lo], lo, hi)" in src and "yield (lo, new_hi)" in src and "lo = new_hi" in src
-    ctx.ob("C17.R5", RES, "Table._sub_lohis", sub, "sub-ranges partition [lo,hi) into maximal runs of equal values, ascending", ok, stmt="_sub_lohis")
+    sub_lohis_runs(ctx, "C17.R5")
     guard = [x for x in walk_shallow(where) if isinstance(x, ast.If) and "kw in self._indexes" in unparse(x.test)]
     ok = len(guard) == 1 and unparse(guard[0].test) == f"kw in self._indexes and {CMP} != 'match' and (not callable(arg))"
     ctx.ob("C17.R5", RES, "Table.where", guard[0] if guard else where, "bisect is used only for index columns, never for match/callables", ok, stmt="bisect guard")
@@ -595,6 +644,8 @@ def _drop_le(tree):
 
 
 CONTROLS = [
+    ("declared indexes re-ordered by column order", RES, M.replace_expr("Table.__init__", "tuple(indexes)", "tuple((c for c in self._columns if c in indexes))"), "C17.R14"),
+    ("from_logged_envs indexes its empty tables first", RES, M.insert_before("Result.from_logged_envs", lambda st: isinstance(st, ast.FunctionDef), "int_table.index('environment_id', 'learner_id', 'evaluator_id', 'index')"), "C17.R13"),
     ("NaN arguments are bisected", RES, M.delete_stmt("Table._compare", M.text_has("arg != arg")), "C17.R10"),
     ("a list selection over a list view taken as one run", RES, M.replace_expr("View.__init__", "[data._select[i] for i in select]", "data._select[select[0]:select[-1] + 1] if select else []"), "C17.R11"),
     ("Missing hashes unlike None", RES, M.replace_expr("MissingType.__hash__", "hash(None)", "hash(MissingType)"), "C17.R9"),
